@@ -499,7 +499,7 @@ func checkC13(tier, replay string) int {
 		"(exact-state memoisation, no abstraction). After every event the real missing-approve is run. "+
 		"A node is non-trivial if at least one conclusive observation (approve OK or compare) lies in its history; distinct = distinct history. "+
 		"Additionally every byte-offset truncation of every distinct status file content seen is checked, and the real do-approve is run against the CLI simulator (ASA, IOS) while the link 'current' is switched to a policy with other code at the schedule points after-lock and before-status-write. "+
-		"Session tier: all histories of length <= 3 (quick) / 4 (thorough) over %v for an ASA and an IOS device are played as complete do-approve sessions against the CLI simulator backed by the device model (state kept from session to session), the status file being written by do-approve itself; the reference takes a session as successful approve if the device accepted every command and confirmed the save, and decides a compare by its own equivalence of model and target.", depth, c13Events, c13SessionEvents)
+		"Session tier: all histories of length <= 3 (quick) / 4 (thorough) over %v for an ASA and an IOS device are played as complete do-approve sessions against the CLI simulator backed by the device model (state kept from session to session), the status file being written by do-approve itself; the reference takes a session as successful approve if the device accepted every command and confirmed the save, and decides a compare by its own equivalence of model and target. Noisy-log tier: do-approve compare of a differing PAN-OS / NSX device with two names whose first member answers the login with a 70 000 byte one-line error page (logged before the second member is used); the device must be listed.", depth, c13Events, c13SessionEvents)
 	rep.Assumptions = []string{
 		"do-approve => status.SetApprove(failed) / status.SetCompare(changed||errors), validated by the realistic tier of C09/C12 runs that compare status files written by the real do-approve",
 		"status damage family: deleted, empty, truncated, overwritten with non-JSON bytes; forged valid JSON is outside the claim",
@@ -522,6 +522,10 @@ func checkC13(tier, replay string) int {
 			for k := range sess.History {
 				c13RunSessions(env, rep, sess.Type, append(append([]string{}, sess.History[:k+1]...)))
 			}
+			return rep.FinishReplay()
+		}
+		if json.Unmarshal(data, &sess) == nil && sess.Tier == "noisy-log" {
+			c13NoisyLogs(env, rep)
 			return rep.FinishReplay()
 		}
 		var h []string
@@ -658,6 +662,8 @@ func checkC13(tier, replay string) int {
 	c13Interleavings(env, rep)
 	// Histories of complete do-approve sessions against a stateful device.
 	c13Sessions(env, rep, tier)
+	// Compare runs whose log holds more than the usual few short lines.
+	c13NoisyLogs(env, rep)
 	// Truncation of every distinct status content at every byte offset.
 	var stKeys []string
 	for k := range statusSeen {
